@@ -680,7 +680,9 @@ fn left_recursion<'a, 'i: 'a>(rules: HashMap<String, &'a ParserNode<'i>>) -> Vec
                         &mut vec![trace.last().unwrap().clone()],
                     )
                 {
-                    check_expr(rhs, rules, trace)
+                    // `lhs` can match without consuming input, so both `lhs` and `rhs` are
+                    // reachable at the position where the sequence starts.
+                    check_expr(lhs, rules, trace).or_else(|| check_expr(rhs, rules, trace))
                 } else {
                     check_expr(lhs, rules, trace)
                 }
@@ -690,6 +692,12 @@ fn left_recursion<'a, 'i: 'a>(rules: HashMap<String, &'a ParserNode<'i>>) -> Vec
             }
             ParserExpr::Rep(ref node) => check_expr(node, rules, trace),
             ParserExpr::RepOnce(ref node) => check_expr(node, rules, trace),
+            ParserExpr::RepExact(ref node, _)
+            | ParserExpr::RepMin(ref node, _)
+            | ParserExpr::RepMax(ref node, _)
+            | ParserExpr::RepMinMax(ref node, _, _) => check_expr(node, rules, trace),
+            #[cfg(feature = "grammar-extras")]
+            ParserExpr::NodeTag(ref node, _) => check_expr(node, rules, trace),
             ParserExpr::Opt(ref node) => check_expr(node, rules, trace),
             ParserExpr::PosPred(ref node) => check_expr(node, rules, trace),
             ParserExpr::NegPred(ref node) => check_expr(node, rules, trace),
